@@ -25,6 +25,7 @@ func runC10(c *an.Ctx) string {
 	r107Memo(c)
 	encoderNilGuards(c, "R10.8", "grpc/codegen/templates/request_encoder.go.tpl", "grpc/codegen/templates/response_encoder.go.tpl")
 	r10InvokeOrder(c)
+	requiredPropagationRule(c, "R10.10", "expr")
 	return explanationC10
 }
 
